@@ -3,8 +3,9 @@
    repository: modelled and tied by the fault stream) + bartiq's own verify_uncompiled_repetitions with the
    predicates regenerated from verification.py.  Not provable here, guarded by per-case time limits and the
    exception-class observable of every stream: exceptions and non-termination inside sympy. *)
-From Coq Require Import List String Bool Arith.
-From Bq Require Import Expr RepModel Routine Compare Compile CompileTop TopoFacts Verify VerifyFacts.
+From Coq Require Import List String Bool Arith QArith ZArith.
+From Bq Require Import Expr StdSem Rep RepModel Routine Compare Compile CompileTop TopoFacts Verify VerifyFacts.
+From BqGen Require Import GenRepetitions.
 Import ListNotations.
 Open Scope string_scope.
 
@@ -63,3 +64,13 @@ Example C17_nonvacuous :
   let r := Routine "root" None [] [] [] [] [] [((Some "a", "o"), (Some "b", "i")); ((Some "b", "o"), (Some "a", "i"))] None [] [leaf "a"; leaf "b"] in
   has_cycle r = true /\ compile_routine_checked false r = ECompile.
 Proof. split; vm_compute; reflexivity. Qed.
+
+(* a well-formed repetition at the edge of its family has a value: the product over an arithmetic sequence whose difference is
+   the literal 0 -- where the gamma closed form has a pole and the code used to raise ZeroDivisionError (finding F27) -- is,
+   in the formula generated from the repaired source, the unrolled product of initial_term * child over the rounds *)
+Theorem C17_arithmetic_product_with_zero_difference_is_the_unrolled_product : forall r a q e cnt n,
+  Qeq_bool q 0 = true -> (evalT r cnt == ofn n)%Q ->
+  exists g, gen_ArithmeticSequence_get_prod a (ENum q) e cnt = Some g /\
+            (evalT r g == prodn n (fun _ => evalT r a * evalT r e))%Q.
+Proof. exact arith_prod_zero_difference_correct. Qed.
+Print Assumptions C17_arithmetic_product_with_zero_difference_is_the_unrolled_product.
